@@ -493,7 +493,10 @@ func (dec *Decoder) List(f func() error) (isList bool, err error) {
 	}()
 
 	if dec.listDepth >= maxListDepth {
-		return false, fmt.Errorf("imapwire: exceeded max depth")
+		// Also record the error: some callers only look at Decoder.Err
+		err := fmt.Errorf("imapwire: exceeded max depth")
+		dec.returnErr(err)
+		return false, err
 	}
 
 	for {
@@ -610,7 +613,11 @@ func (dec *Decoder) Literal(ptr *string) bool {
 		}
 	}
 	var sb strings.Builder
-	_, err := io.Copy(&sb, lit)
+	n, err := io.Copy(&sb, lit)
+	if err == nil && n != lit.Size() {
+		// io.Copy doesn't treat a premature end of the stream as an error
+		err = io.ErrUnexpectedEOF
+	}
 	if err == nil {
 		*ptr = sb.String()
 	}
